@@ -256,6 +256,17 @@ func %s() {
 		{"InverseUnknown", "eng.ExecuteSelectedRulesInverseMixModel(rb, []string{\"zz\"})"},
 		{"Concurrent", "eng.ExecuteConcurrent(rb)"},
 	}
+	// round 7 (seed C11-m13): every selected entry point called with a name list that resolves to nothing
+	// (unknown names only, empty list): the call ends early but must still start from a fresh map
+	for _, m := range engineModels() {
+		if !strings.Contains(m.call, namesLit(2)) && !strings.Contains(m.call, namesLit(3)) {
+			continue
+		}
+		for _, lst := range []struct{ id, lit string }{{"UnknownOnly", "[]string{\"zz\"}"}, {"NoNames", "[]string{}"}} {
+			call := strings.ReplaceAll(strings.ReplaceAll(m.call, namesLit(3), lst.lit), namesLit(2), lst.lit)
+			second = append(second, struct{ id, call string }{m.name + "_" + lst.id, call})
+		}
+	}
 	for _, sc := range second {
 		name := "H_then_" + sc.id
 		fmt.Fprintf(&b, `
